@@ -841,8 +841,8 @@ def chunks(xs, n):
 def run(ctx):
     quick = ctx.tier == "quick"
     rng = ctx.rng
-    ncorr = 180 if quick else 1500
-    norc = 600 if quick else 6000
+    ncorr = 140 if quick else 1500
+    norc = 420 if quick else 6000
     stats = {}
     ctx.trusted += [
         "correspondence harness/c01.py + harness/impl/c01_impl.py: generated models/term lists; witness loggers wrapping _decompose_graph, _decompose_qr, bipartite_vertex_cover, scipy.linalg.qr, swap_site; JSON export; canonicalisation (out-ops sorted inside a bond entry, tables sorted); Gaussian-integer scaling of dyadic factors",
